@@ -33,6 +33,7 @@ class Slice:
         self.calls = []      # CallSite of every call (opaque or not) on the slice
         self.consts = []     # decoded constants met
         self.locals = set()
+        self.aggs = set()    # (adt, variant) constructed on the slice
 
     def has_leaf(self, prefix):
         return any(l == prefix or l.startswith(prefix) for l in self.leaves)
@@ -108,7 +109,7 @@ def _path_of(place):
     return upvar, names
 
 
-def origins(body, start, opaque=None, follow_workspace=False, max_nodes=20000):
+def origins(body, start, opaque=None, follow_workspace=False, max_nodes=20000, stop_adts=()):
     """start: operand dict, place dict, local index, or list of those"""
     prog = body.prog
     sl = Slice()
@@ -133,14 +134,31 @@ def origins(body, start, opaque=None, follow_workspace=False, max_nodes=20000):
 
     def add_place(p):
         upvar, names = _path_of(p)
+        stop = False
         for e in p["p"]:
             if isinstance(e, dict) and "n" in e and "adt" in e:
                 sl.fields.add((e["adt"], e["n"]))
+                if e["adt"] in stop_adts:
+                    stop = True
+        if stop:
+            # the value is a field of one of the ADTs of interest: that field IS the source, do not look further
+            return
+        for e in p["p"]:
+            if False:
+                pass
             if isinstance(e, dict) and "tuple" in e:
                 sl.fields.add(("tuple", e["f"]))
             if isinstance(e, dict) and "idx" in e:
                 add_local(e["idx"])
         l = p["l"]
+        # field-sensitive step for tuple / struct temporaries: `_t.1` follows only operand 1 of `_t = (a, b)`
+        if p["p"] and isinstance(p["p"][0], dict) and "f" in p["p"][0] and "upvar_of" not in p["p"][0] \
+                and not (1 <= l <= body.arg_count) and _only_agg_defs(body, l):
+            key = (l, p["p"][0]["f"])
+            if key not in seen:
+                seen.add(key)
+                dq.append(key)
+            return
         if is_closure_like and l == 1 and upvar is not None:
             sl.leaves.add("upvar:%d%s" % (upvar, "".join("." + n for n in names)))
             return
@@ -185,6 +203,38 @@ def origins(body, start, opaque=None, follow_workspace=False, max_nodes=20000):
     while dq and n < max_nodes:
         l = dq.popleft()
         n += 1
+        if isinstance(l, tuple):
+            base, fld = l
+            sl.locals.add(base)
+            for kind, bb, j, x in body.defs.get(base, []):
+                if kind != "stmt" or x["s"] != "assign":
+                    continue
+                if x["lhs"]["p"]:
+                    e = x["lhs"]["p"][0]
+                    if isinstance(e, dict) and e.get("f") == fld:
+                        rv = x["rv"]
+                        if rv["k"] in ("use", "cast"):
+                            add_op(rv["op"])
+                        elif rv["k"] in ("ref", "rawptr"):
+                            add_place(rv["place"])
+                        else:
+                            add_local(base)
+                    continue
+                rv = x["rv"]
+                if rv["k"] == "agg" and fld < len(rv["ops"]):
+                    if rv.get("agg") == "adt":
+                        sl.aggs.add((strip_generics(rv["adt"]), rv["variant"]))
+                    add_op(rv["ops"][fld])
+                elif rv["k"] == "use":
+                    pl = op_place(rv["op"])
+                    if pl is not None and not pl["p"] and _only_agg_defs(body, pl["l"]):
+                        key = (pl["l"], fld)
+                        if key not in seen:
+                            seen.add(key)
+                            dq.append(key)
+                    else:
+                        add_op(rv["op"])
+            continue
         sl.locals.add(l)
         for kind, bb, j, x in body.defs.get(l, []):
             if kind == "call":
@@ -218,6 +268,12 @@ def origins(body, start, opaque=None, follow_workspace=False, max_nodes=20000):
             elif k == "agg":
                 if rv.get("agg") in ("closure", "coroutine", "coroutine_closure"):
                     sl.leaves.add("closure:%s" % rv["def"])
+                if rv.get("agg") == "adt":
+                    a = strip_generics(rv["adt"])
+                    sl.aggs.add((a, rv["variant"]))
+                    if not rv["ops"]:
+                        sl.leaves.add("const:%s::%s" % (a, rv["variant"]))
+                        sl.consts.append({"adt": a, "variant": rv["variant"], "pp": "%s::%s" % (a, rv["variant"])})
                 for o in rv["ops"]:
                     add_op(o)
         for cs, pos in mutdefs.get(l, []):
@@ -230,6 +286,36 @@ def origins(body, start, opaque=None, follow_workspace=False, max_nodes=20000):
                 if j != pos:
                     add_op(a)
     return sl
+
+
+def _only_agg_defs(body, l):
+    """True when every definition of local l is an aggregate construction, a whole move of such a local, or a field
+    assignment — i.e. the local's fields can be followed individually"""
+    ds = body.defs.get(l, [])
+    if not ds:
+        return False
+    for kind, bb, j, x in ds:
+        if kind != "stmt" or x["s"] != "assign":
+            return False
+        if x["lhs"]["p"]:
+            e = x["lhs"]["p"][0]
+            if not (isinstance(e, dict) and "f" in e and len(x["lhs"]["p"]) == 1):
+                return False
+            continue
+        rv = x["rv"]
+        if rv["k"] == "agg" and rv.get("agg") in ("tuple", "adt", "array"):
+            continue
+        if rv["k"] == "use":
+            pl = op_place(rv["op"])
+            if pl is not None and not pl["p"] and pl["l"] != l and _only_agg_defs_shallow(body, pl["l"]):
+                continue
+        return False
+    return True
+
+
+def _only_agg_defs_shallow(body, l):
+    ds = body.defs.get(l, [])
+    return bool(ds) and all(kind == "stmt" and x["s"] == "assign" and not x["lhs"]["p"] and x["rv"]["k"] == "agg" for kind, bb, j, x in ds)
 
 
 def arg_origins(cs, i, **kw):
